@@ -64,6 +64,10 @@ def generate(ck):
         # the step pattern that produces K5: long step after much shorter ones
         {"cls": "single", "nx": 30, "table": {"kind": "shipped", "name": "pvt_gas"}, "p_i": 8000.0, "p_f": 1000.0, "alpha_branch": False, "schedule": None, "grid": {"family": "sorted-random", "nt": 40, "t_end": 0.5, "seed": 7}},
     ]
+    # pseudopressure referenced to a pressure between p_f and p_i (negative at the fracture face), on
+    # grids that let the profile relax completely: fixed so that the quick tier does not depend on the draw
+    for fam_, grid_ in (("zlin", {"family": "uniform", "nt": 300, "t_end": 200.0, "seed": 0}), ("falling", {"family": "huge-steps", "nt": 6, "t_end": 1.0, "seed": 3}), ("ideal", {"family": "quadratic", "nt": 200, "t_end": 50.0, "seed": 0})):
+        descs.append({"cls": "single", "nx": 30, "table": {"kind": "synthetic", "family": fam_, "prm": [0.4, 0.4, 0.5], "n": 200, "p_lo": 100.0, "p_hi": 9100.0, "grid": "uniform", "seed": 0, "datum": 0.45}, "p_i": 7000.0, "p_f": 1500.0, "alpha_branch": False, "schedule": None, "grid": grid_, "relax": "datum"})
     for i in range(n):
         d = sim.random_sim_desc(rng, ck.tier, twophase_share=0.08)
         if i % 5 == 0:
